@@ -282,9 +282,15 @@ class TriggerHandler:
         :return: None to ignore other calls, or our self to continue
         """
         event, file, line, function = self.location_from_event(event, frame)
-        trigger_context = TriggerContext(self._config, self._push_service, frame, event, arg)
+        # The context of the event (an id, the time) is made when there is something to do, not for every event: we are
+        # called for every line of every function we follow, and up to python 3.12 the variables of the frame are
+        # written back from a copy made before the call when we return - what another thread writes to a variable it
+        # shares with the function meanwhile is lost. Making an id asks the system for random bytes, which lets other
+        # threads run: it made that window wide, on every event.
+        trigger_context = None
 
         if event in ["line", "return", "exception"] and self._callbacks.is_set:
+            trigger_context = TriggerContext(self._config, self._push_service, frame, event, arg)
             with _UnknownThread():
                 self.__process_call_backs(trigger_context, arg, frame, event, file, line, function)
 
@@ -296,6 +302,8 @@ class TriggerHandler:
         if len(actions) == 0:
             return self.trace_call
 
+        if trigger_context is None:
+            trigger_context = TriggerContext(self._config, self._push_service, frame, event, arg)
         with _UnknownThread():
             self.__process_actions(trigger_context, actions, frame, event, file, line, function)
         if any(action.condition or action.action_type != LocationAction.ActionType.Span for action in actions):
